@@ -220,4 +220,12 @@ def rule_csv_errors_name_their_line(ctx):
     rule_delimited_error_helper(ctx, check_location=True)
 
 
-RULES = [rule_validate_row, rule_cursor, rule_location_copies, rule_raw_rows_dispatch, rule_ods_rows_keep_their_cells, rule_items_are_the_cells_of_the_sheet, rule_locations_name_every_kind_of_source, rule_csv_errors_name_their_line, rule_module_state]
+def rule_fields_judge_cells_alike_in_every_format(ctx):
+    """O17.4 (shared with C17): the verdict of C04 composes the per-field verdicts of C02/C03 for all four data formats: a
+    field must give the same text cell the same verdict whatever the Format says (the documented Excel midnight rule aside)."""
+    from .c17 import rule_format_independent_hooks
+
+    rule_format_independent_hooks(ctx)
+
+
+RULES = [rule_fields_judge_cells_alike_in_every_format, rule_validate_row, rule_cursor, rule_location_copies, rule_raw_rows_dispatch, rule_ods_rows_keep_their_cells, rule_items_are_the_cells_of_the_sheet, rule_locations_name_every_kind_of_source, rule_csv_errors_name_their_line, rule_module_state]
